@@ -98,10 +98,10 @@ def encode(fn, extra_ins=()):
 
     def g(seed, *rest):
         _SEED[0] = seed
-        return fn(*rest)
+        with stub_random():  # also when the harness re-runs the real generator concretely (replay): draws are played back
+            return fn(*rest)
 
-    with stub_random():
-        return Encoded(g, ins, tag="ic", uf_hook=_hook), ins
+    return Encoded(g, ins, tag="ic", uf_hook=_hook), ins
 
 
 def build(ck):
